@@ -205,6 +205,8 @@ def enc_val(v):
         return v
     if isinstance(v, (set, frozenset)):
         return sorted((enc_val(x) for x in v), key=idkey)
+    if isinstance(v, tuple):   # hashable; canonical text "(a, b)" as the model writes it
+        return {"$o": "(" + ", ".join(json.dumps(x) for x in v) + ")"}
     return {"$o": json.dumps(v, sort_keys=True, default=repr)}
 
 
